@@ -12,7 +12,7 @@ A declaration step that raises under a schedule while the canonical order builds
 import copy
 import random
 
-from sim import gen, ref, interp
+from sim import gen, ref, interp, direct
 from sim.runner import subseed, digest
 
 NAME = 'M-HIST'
@@ -68,6 +68,15 @@ def _lin_forms(rng, xe, a_by_z, b):
     return ['<=', e, ['c', b]]
 
 
+def _coef(rng, zs):
+    """coefficients on the random arrays; never all zero (a robust row without any random part is a degenerate
+    input outside the instance class - RSOME's dro expansion mishandles it, noted in DESIGN.md)"""
+    while True:
+        a = {zn: [gen.nz2(rng) if rng.random() < 0.85 else 0.0 for _ in range(n)] for zn, n in zs.items()}
+        if any(v != 0.0 for vec in a.values() for v in vec):
+            return a
+
+
 def gen_ro_sep(rng, cfg):
     cone = rng.choice(['lp', 'soc', 'soc', 'exp'])
     zs = {'z': rng.randint(2, 4)}
@@ -80,7 +89,7 @@ def gen_ro_sep(rng, cfg):
 
     def add(op, deps, **kw):
         sid[0] += 1
-        s = {'sid': 's%d' % sid[0], 'op': op, 'deps': list(deps)}
+        s = {'sid': 's%d' % sid[0], 'op': op, 'deps': sorted(deps)}
         s.update(kw)
         steps.append(s)
         return s['sid']
@@ -142,7 +151,7 @@ def gen_ro_sep(rng, cfg):
         s_obj = add({'op': 'obj', 'm': 'm', 'how': 'max', 'e': obj}, set(s_x), role='obj')
 
     for k in range(K):
-        a = {zn: [gen.nz2(rng) if rng.random() < 0.85 else 0.0 for _ in range(n)] for zn, n in zs.items()}
+        a = _coef(rng, zs)
         b = gen.r2(rng, 5, 20)
         own = default_set is None or rng.random() < 0.7
         blocks = gen.gen_set(rng, zs, fams) if own else default_set
@@ -170,7 +179,169 @@ def gen_ro_sep(rng, cfg):
             'expect': expect, 'xnames': xnames, 'pool': solver_pool(cone, ints)}
 
 
-FAMILIES = {'ro-sep': gen_ro_sep}
+def gen_probset(rng, S):
+    praw = [rng.randint(1, 6) for _ in range(S)]
+    phat = [round(x / sum(praw), 6) for x in praw]
+    phat[-1] = round(1.0 - sum(phat[:-1]), 6)
+    k = rng.choice(['fixed', 'fixed', 'box', 'l1', 'linf'])
+    P = {'kind': k, 'phat': phat}
+    if k in ('box', 'linf'):
+        P['d'] = rng.choice([0.05, 0.1, 0.2])
+    if k == 'l1':
+        P['theta'] = rng.choice([0.1, 0.2, 0.4])
+    return P
+
+
+def gen_dro_sep(rng, cfg):
+    """scenario-wise separable dro probe model: supports per scenario (and per ambiguity set) from the closed-form
+    families, probability sets with a direct reference LP, constraints with and without E, attached to one of up
+    to two ambiguity sets or to the objective's default."""
+    cone = rng.choice(['lp', 'lp', 'soc', 'soc', 'exp'])
+    S = rng.randint(1, 4)
+    labk = rng.randrange(3)
+    labels = list(range(S)) if labk == 0 else (['s%d' % i for i in range(S)] if labk == 1 else rng.sample(range(10, 99), S))
+    intlab = labk == 0
+    zs = {'z': rng.randint(1, 3)}
+    if rng.random() < 0.3:
+        zs['w'] = rng.randint(1, 2)
+    K = rng.randint(2, 4)
+    fams = gen.fams_for(cone)
+    steps = []
+
+    def add(op, deps, **kw):
+        s_ = {'sid': 's%d' % (len(steps) + 1), 'op': op, 'deps': sorted(deps)}
+        s_.update(kw)
+        steps.append(s_)
+        return s_['sid']
+
+    s_m = add({'op': 'model', 'id': 'm', 'kind': 'dro', 'scens': S if intlab else labels}, [])
+    s_z = {zn: add({'op': 'rvar', 'id': zn, 'm': 'm', 'shape': [n]}, [s_m]) for zn, n in zs.items()}
+    scalar_x = rng.random() < 0.5
+    xs, s_x = [], []
+    if scalar_x:
+        for k in range(K):
+            s_x.append(add({'op': 'dvar', 'id': 'x%d' % k, 'm': 'm'}, [s_m]))
+            xs.append(['v', 'x%d' % k])
+    else:
+        sx = add({'op': 'dvar', 'id': 'x', 'm': 'm', 'shape': [K]}, [s_m])
+        xs = [['i', ['v', 'x'], k] for k in range(K)]
+        s_x = [sx] * K
+    # extra variable outside the objective.  In dro a decision declared after an expression was built breaks
+    # formulation (recorded finding K6), so it precedes every expression except in a rare hazard draw.
+    ints = False
+    s_u = None
+    hazard_late_dvar = rng.random() < cfg.get('p_dro_late_dvar', 0.04)
+    if rng.random() < 0.4:
+        vt = 'C' if cone == 'exp' else rng.choice(['C', 'I', 'B'])
+        ints = vt != 'C'
+        s_u = add({'op': 'dvar', 'id': 'u', 'm': 'm', 'shape': [rng.randint(1, 2)], 'vtype': vt}, [s_m], late=True)
+    before_expr = [s_u] if (s_u and not hazard_late_dvar) else []
+    # ambiguity sets (all of them before the first st - a documented API rule)
+    namb = rng.choice([1, 1, 2])
+    ambs = {}
+    s_amb = []
+    for ai in range(namb):
+        an = 'FG'[ai]
+        sa = add({'op': 'amb', 'id': an, 'm': 'm'}, [s_m], role='amb')
+        s_amb.append(sa)
+        supports = [None] * S
+        groups = []
+        if rng.random() < 0.3:
+            groups = [list(range(S))]
+        else:
+            pos = list(range(S))
+            rng.shuffle(pos)
+            while pos:
+                k_ = rng.randint(1, len(pos))
+                groups.append(sorted(pos[:k_]))
+                pos = pos[k_:]
+        for g in groups:
+            blocks = gen.gen_set(rng, zs, fams)
+            for s_ in g:
+                supports[s_] = blocks
+            if len(g) == S and rng.random() < 0.5:
+                sc = None
+            else:
+                labs = [labels[q] for q in g]
+                sc = (labs if len(labs) > 1 or rng.random() < 0.5 else labs[0])
+                if not intlab:
+                    sc = {'loc': sc}
+            add({'op': 'supp', 'amb': an, 'scen': sc, 'set': ref.set_constraints(blocks, zs), 'blocks': blocks},
+                [sa] + list(s_z.values()), role='supp', anchor=sa)
+        P = gen_probset(rng, S)
+        add({'op': 'prob', 'amb': an, 'set': ref.prob_constraints('m.p', P)}, [sa], role='prob', anchor=sa)
+        ambs[an] = {'supports': supports, 'P': P}
+
+    def wce(an, a):
+        deltas = [ref.support(ambs[an]['supports'][s_], a) for s_ in range(S)]
+        return ref.worst_case_expectation(ambs[an]['P'], deltas)
+
+    def wcs(an, a):
+        return max(ref.support(ambs[an]['supports'][s_], a) for s_ in range(S))
+
+    s_bound = []
+    if scalar_x:
+        for k in range(K):
+            add({'op': 'cons', 'id': 'bx%d' % k, 'e': ['<=', xs[k], ['c', 50.0]]}, list(set(s_x)) + before_expr, role='bound')
+            s_bound.append(add({'op': 'st', 'm': 'm', 'ids': ['bx%d' % k]}, [steps[-1]['sid']] + s_amb, role='bound', anchor=s_x[k]))
+    else:
+        add({'op': 'cons', 'id': 'bx', 'e': ['<=', ['v', 'x'], ['c', 50.0]]}, [s_x[0]] + before_expr, role='bound')
+        s_bound.append(add({'op': 'st', 'm': 'm', 'ids': ['bx']}, [steps[-1]['sid']] + s_amb, role='bound', anchor=s_x[0]))
+
+    expect = {'x': [], 'obj_const': 0.0}
+    obj = xs[0]
+    for t in xs[1:]:
+        obj = ['+', obj, t]
+    default_amb = None
+    if rng.random() < 0.6:
+        default_amb = rng.choice(sorted(ambs))
+        if rng.random() < 0.6:
+            c0 = {zn: [gen.nz2(rng, -1, 1) for _ in range(n)] for zn, n in zs.items()}
+            e = obj
+            for zn, a in c0.items():
+                e = ['+', e, ['@', ['c', a], ['v', zn]]]
+            expect['obj_const'] += -wce(default_amb, {zn: [-v for v in a] for zn, a in c0.items()})
+            obj_e = ['E', e]
+        else:
+            obj_e = ['E', obj] if rng.random() < 0.5 else obj
+        s_obj = add({'op': 'obj', 'm': 'm', 'how': 'maxinf', 'e': obj_e, 'amb': default_amb},
+                    set(s_x) | set(s_z.values()) | {s_amb['FG'.index(default_amb)]} | set(before_expr), role='obj')
+    else:
+        s_obj = add({'op': 'obj', 'm': 'm', 'how': 'max', 'e': obj}, set(s_x) | set(before_expr), role='obj')
+
+    for k in range(K):
+        a = _coef(rng, zs)
+        b = gen.r2(rng, 5, 20)
+        etype = rng.random() < 0.45
+        own = default_amb is None or rng.random() < 0.7
+        an = rng.choice(sorted(ambs)) if own else default_amb
+        expect['x'].append(b - (wce(an, a) if etype else wcs(an, a)))
+        ce = _lin_forms(rng, xs[k], a, b)
+        if etype:
+            ce = [ce[0], ['E', ce[1]], ce[2]] if ce[0] == '<=' else [ce[0], ce[1], ['E', ce[2]]]
+        s_c = add({'op': 'cons', 'id': 'c%d' % k, 'e': ce}, {s_x[k]} | set(s_x) | set(s_z.values()) | set(before_expr), role='cons')
+        last = s_c
+        if own:
+            last = add({'op': 'forall', 'id': 'c%d' % k, 'amb': an}, [s_c, s_amb['FG'.index(an)]], role='set')
+        add({'op': 'st', 'm': 'm', 'ids': ['c%d' % k]}, [last] + s_amb + ([] if own else [s_obj]), role='st')
+    if s_u:
+        add({'op': 'cons', 'id': 'bu1', 'e': ['<=', ['v', 'u'], ['c', 5.0]]}, [s_u], late=True, role='bound')
+        add({'op': 'cons', 'id': 'bu2', 'e': ['>=', ['v', 'u'], ['c', 0.0]]}, [s_u], late=True, role='bound')
+        add({'op': 'st', 'm': 'm', 'ids': ['bu1', 'bu2']}, [steps[-2]['sid'], steps[-1]['sid']] + s_amb, late=True,
+            role='bound', anchor=s_u)
+    # dro: every expression is built after every decision variable exists (otherwise finding K6), except in the rare
+    # hazard draw where exactly that order dependence is exercised
+    if not hazard_late_dvar:
+        dv = [s_['sid'] for s_ in steps if s_['op']['op'] == 'dvar']
+        for s_ in steps:
+            if s_['op']['op'] in ('cons', 'obj', 'expr'):
+                s_['deps'] = sorted(set(s_['deps']) | set(dv))
+    xnames = ['x%d' % k for k in range(K)] if scalar_x else ['x']
+    return {'family': 'dro-sep', 'model': 'm', 'cone': cone, 'ints': ints, 'zs': zs, 'steps': steps, 'labels': labels,
+            'expect': expect, 'xnames': xnames, 'pool': solver_pool(cone, ints), 'late_decl_before_expr': True}
+
+
+FAMILIES = {'ro-sep': gen_ro_sep, 'dro-sep': gen_dro_sep}
 
 
 # ==================================================================================================
@@ -178,12 +349,19 @@ FAMILIES = {'ro-sep': gen_ro_sep}
 # ==================================================================================================
 
 def _solvable(done_steps, decl):
-    """objective declared and every declared decision variable has all its bound steps executed"""
+    """objective declared; every declared decision variable has all its bound steps executed; every declared
+    ambiguity set has its support/probability steps executed (steps carry an 'anchor': once the anchor exists the
+    step must have run before a solve event is meaningful)"""
     if not any(s.get('role') == 'obj' for s in done_steps):
         return False
     done = {s['sid'] for s in done_steps}
     for s in decl['steps']:
-        if s.get('role') == 'bound' and s['sid'] not in done:
+        if s['sid'] in done:
+            continue
+        if 'anchor' in s:
+            if s['anchor'] in done:
+                return False
+        elif s.get('role') == 'bound':
             for d in _root_deps(decl, s):
                 if d in done and _is_dvar(decl, d):
                     return False
@@ -235,9 +413,10 @@ def gen_noise(rng, decl, declared, n):
     zn = sorted(zs)[0]
     xe = ['v', xs[0]] if xs[0] != 'x' else ['i', ['v', 'x'], 0]
     a = [gen.nz2(rng) for _ in range(zs[zn])]
-    return [{'op': 'cons', 'id': 'noise%d' % n, 'e': ['<=', ['+', xe, ['@', ['c', a], ['v', zn]]], ['c', 7.0]], 'env': 1},
-            {'op': 'forall', 'id': 'noise%d' % n, 'set': ref.set_constraints(blocks, zs), 'env': 1,
-             'blocks': blocks}]
+    fa = {'op': 'forall', 'id': 'noise%d' % n, 'set': ref.set_constraints(blocks, zs), 'env': 1, 'blocks': blocks}
+    if decl['family'].startswith('dro'):
+        fa['aslist'] = True
+    return [{'op': 'cons', 'id': 'noise%d' % n, 'e': ['<=', ['+', xe, ['@', ['c', a], ['v', zn]]], ['c', 7.0]], 'env': 1}, fa]
 
 
 def gen_schedule(rng, decl, bias, cfg):
@@ -344,8 +523,16 @@ def tags_of(ops):
     soc_solved = False
     ipc_seen = False
     nsets = 0
+    kind = None
+    expr_built = False
     for op in ops:
         k = op['op']
+        if k == 'model':
+            kind = op.get('kind')
+        if k in ('cons', 'obj', 'expr') and not op.get('env'):
+            expr_built = True
+        if k == 'dvar' and expr_built and kind == 'dro':
+            tags.add('dro_dvar_after_expression')
         if k in ('forall', 'obj', 'supp') and ('set' in op):
             fams = {b['fam'] for b in op.get('blocks', [])}
             if ipc_seen:
@@ -378,6 +565,37 @@ def tags_of(ops):
         if k == 'dvar' and op.get('vtype') == 'B':
             tags.add('binary_var')
     return sorted(tags)
+
+
+ENGINE_OF = {'def': 'scipy', 'lpg': 'scipy', 'ort': 'ortools', 'grb': 'gurobi', 'eco': 'ecos'}
+
+
+def engine_at_fault(it, mname, sv, tol):
+    """True iff the engine, called directly on the live compiled program through an independent translation, returns
+    the same value it returned through RSOME's interface - then a mismatch seen by an oracle is the engine's own
+    (e.g. the HiGHS presolve defect on small MILPs), which is inconclusive, never a violation."""
+    try:
+        from machines.peer import snapshot
+        m = it.env[mname]
+        sol = m.solution
+        snap = snapshot(m.do_math())
+        d = direct.DIRECT[ENGINE_OF[sv]](snap)
+        if d is None or sol is None:
+            return False
+        # the direct value is trusted only if a second engine confirms that the first one is off
+        others = [e for e in ('gurobi', 'ortools', 'scipy', 'ecos') if e != ENGINE_OF[sv]]
+        for e in others:
+            try:
+                d2 = direct.DIRECT[e](snap)
+            except Exception:
+                d2 = None
+            if d2 is not None:
+                same_as_iface = abs(d - float(sol.objval)) <= tol * (1 + abs(d))
+                engines_differ = abs(d2 - d) > tol * (1 + abs(d))
+                return same_as_iface and engines_differ
+        return False
+    except Exception:
+        return False
 
 
 def check_case(case, props):
@@ -417,6 +635,9 @@ def check_case(case, props):
         stats['l1_checks'] += 1
         exp_x = decl['expect']['x']
         exp_obj = sum(exp_x) + decl['expect']['obj_const']
+        if not close(out0['obj'], exp_obj, tol) and engine_at_fault(it0, decl['model'], case['canon_solver'], tol):
+            inconc('engine_defect:' + case['canon_solver'])
+            return {'violations': viols, 'stats': stats}
         if not close(out0['obj'], exp_obj, tol):
             viol('L1-objective', 'canonical build: optimum %.9g, closed form of the attached sets %.9g'
                  % (out0['obj'], exp_obj), canon_ops(decl))
@@ -512,7 +733,10 @@ def check_case(case, props):
                             break
                         if op.get('final'):
                             stats['l2_checks'] += 1
-                            if not close(out['obj'], out0['obj'], max(tol, TOL['lp'])):
+                            if not close(out['obj'], out0['obj'], max(tol, TOL['lp'])) and \
+                                    engine_at_fault(it, decl['model'], eng, tol):
+                                inconc('engine_defect:' + eng)
+                            elif not close(out['obj'], out0['obj'], max(tol, TOL['lp'])):
                                 viol('L2-objective', 'schedule #%d (%s) ends in %.9g, canonical build %.9g'
                                      % (si, sch['bias'], out['obj'], out0['obj']), executed, sched=si)
                             elif fam.endswith('-sep'):
